@@ -22,6 +22,10 @@ type stream[REQ any, RES any] struct {
 
 	failSends int // next k client Sends fail with errSendInjected
 	onFail    func()
+	// onSent runs in the SENDER's goroutine after the hand-over succeeded and before Send returns:
+	// this is where engine -> plugin outputs are logged, so that whatever the engine does next is
+	// logged after them (logging in the receiving goroutine would leave a window).
+	onSent func(REQ)
 }
 
 var errSendInjected = errors.New("verif: injected transient stream send failure")
@@ -64,6 +68,9 @@ func (s *stream[REQ, RES]) clientSend(req REQ) error {
 	case <-s.stopChan:
 		return io.EOF
 	case s.reqChan <- req:
+		if s.onSent != nil {
+			s.onSent(req)
+		}
 		return nil
 	}
 }
